@@ -1,11 +1,15 @@
 package props
 
 import (
+	"bytes"
 	"fmt"
 	"os"
 	"path/filepath"
 	"strings"
 	"sync"
+	"time"
+
+	slug "github.com/hashicorp/go-slug"
 
 	"verif/harness/fw"
 	"verif/harness/gen"
@@ -61,9 +65,28 @@ func c16Materialise(dir string, t gen.TreeSpec, rules string) error {
 		return err
 	}
 	if rules != "" {
-		return os.WriteFile(filepath.Join(dir, ".terraformignore"), []byte(rules), 0644)
+		p := filepath.Join(dir, ".terraformignore")
+		if err := os.WriteFile(p, []byte(rules), 0644); err != nil {
+			return err
+		}
+		// a fixed time, so that a rule file of another tree can have the very same size and mtime
+		return os.Chtimes(p, time.Unix(1500000000, 0), time.Unix(1500000000, 0))
 	}
 	return nil
+}
+
+// altRules returns a rule file of exactly the same length as rules that
+// excludes keep.txt (different rules, same size).
+func altRules(rules string) string {
+	n := len(rules)
+	switch {
+	case n < 3:
+		return rules
+	case n == 3:
+		return "k*\n"
+	default:
+		return "k*\n" + strings.Repeat("#", n-4) + "\n"
+	}
 }
 
 type c16Var struct {
@@ -73,8 +96,10 @@ type c16Var struct {
 	Prep func() error
 }
 
-func c16Variations(hist func(string)) []c16Var {
-	return []c16Var{
+func c16Variations(hist func(string), tn string) []c16Var {
+	vs := []c16Var{
+		{Name: "relative-spelling-used-for-another-tree-before", Cwd: "/v/work", Src: "tree", Prep: func() error { hist("alt-relative"); return nil }},
+		{Name: "dot-spelling-used-for-another-tree-before", Cwd: "/v/work/tree", Src: ".", Prep: func() error { hist("alt-dot"); return nil }},
 		{Name: "abs-trailing-slash", Cwd: "/", Src: "/v/work/tree/"},
 		{Name: "abs-double-slash", Cwd: "/", Src: "//v/work//tree"},
 		{Name: "abs-dot-segments", Cwd: "/", Src: "/v/work/./tree/../tree"},
@@ -98,6 +123,11 @@ func c16Variations(hist func(string)) []c16Var {
 			return nil
 		}},
 	}
+	for i := range vs {
+		vs[i].Cwd = strings.ReplaceAll(vs[i].Cwd, "/tree", "/"+tn)
+		vs[i].Src = strings.ReplaceAll(vs[i].Src, "tree", tn)
+	}
+	return vs
 }
 
 func c16Run(env *fw.Env, idx int) fw.Result {
@@ -105,31 +135,47 @@ func c16Run(env *fw.Env, idx int) fw.Result {
 	t, rules := c16Tree(r)
 	opts := allPackOpts[r.Intn(len(allPackOpts))]
 	res := fw.Result{Hash: fw.HashString(t.Key() + rules + opts.String()), NonTrivial: true, Case: map[string]interface{}{"tree": t.Strings(), "rules": rules, "opts": opts.String()}}
+	tn := fmt.Sprintf("tree%d", idx)
 	os.Chdir("/")
 	if err := freshDir("/v"); err != nil {
 		return fw.Result{Verdict: fw.Inconclusive, Msg: err.Error()}
 	}
 	os.MkdirAll("/v/else/deep", 0755)
 	os.MkdirAll("/v/links", 0755)
-	if err := c16Materialise("/v/work/tree", t, rules); err != nil {
+	if err := c16Materialise("/v/work/"+tn, t, rules); err != nil {
 		res.Class, res.NonTrivial = "tree-not-materialisable", false
 		return res
 	}
 	c16Materialise("/v/hist/other", gen.TreeSpec{Nodes: []gen.NodeSpec{{Path: "o/x.log", Kind: "file", Mode: 0644, Content: "o"}, {Path: ".git/c", Kind: "file", Mode: 0644, Content: "g"}}}, "*.log\n")
 	c16Materialise("/v/hist/neg", gen.TreeSpec{Nodes: []gen.NodeSpec{{Path: "n/x.txt", Kind: "file", Mode: 0644, Content: "n"}, {Path: ".terraform/modules/m", Kind: "file", Mode: 0644, Content: "m"}}}, "!n/x.txt\n*.txt\n!.git/\n")
-	os.Symlink("/v/work/tree", "/v/links/abs")
-	os.Symlink("../work/tree", "/v/links/rel")
+	os.Symlink("/v/work/"+tn, "/v/links/abs")
+	os.Symlink("../work/"+tn, "/v/links/rel")
 	os.Symlink("rel", "/v/links/chain")
-	base := doPack("/v/work/tree", opts)
+	base := doPack("/v/work/"+tn, opts)
 	if base.Panic != "" || base.Err != nil || base.DecErr != nil {
 		res.Class, res.NonTrivial = "baseline-pack-failed", false
 		return res
 	}
 	baseSig := slugSig(base.Entries)
-	hist := func(which string) { doPack("/v/hist/"+which, packOpts{Ignore: true}) }
+	// another tree that will be packed under the same relative spellings, with a rule file of equal size and mtime
+	c16Materialise("/v/alt/"+tn, gen.TreeSpec{Nodes: []gen.NodeSpec{{Path: "keep.txt", Kind: "file", Mode: 0644, Content: "other", Mtime: 1500000000}, {Path: "z/other.txt", Kind: "file", Mode: 0644, Content: "o", Mtime: 1500000000}}}, altRules(rules))
+	hist := func(which string) {
+		switch which {
+		case "alt-relative":
+			os.Chdir("/v/alt")
+			doPack(tn, opts)
+			os.Chdir("/")
+		case "alt-dot":
+			os.Chdir("/v/alt/" + tn)
+			doPack(".", opts)
+			os.Chdir("/")
+		default:
+			doPack("/v/hist/"+which, packOpts{Ignore: true})
+		}
+	}
 	obs := map[string]int64{}
 	defer os.Chdir("/")
-	for _, v := range c16Variations(hist) {
+	for _, v := range c16Variations(hist, tn) {
 		if v.Prep != nil {
 			v.Prep()
 		}
@@ -198,6 +244,16 @@ func c16Concurrent(env *fw.Env, idx int) fw.Result {
 		desc = append(desc, fmt.Sprintf("t%d: %d nodes, rules %q", i, len(t.Nodes), rules))
 	}
 	res.Case = map[string]interface{}{"goroutines": n, "trees": desc}
+	// every other round all goroutines share ONE Packer value
+	var shared *slug.Packer
+	if idx%2 == 1 {
+		so := packOpts{Ignore: true, Deref: true}
+		for _, j := range jobs {
+			j.opts = so
+		}
+		shared, _ = slug.NewPacker(so.options()...)
+		res.Class = "concurrent-round-shared-packer"
+	}
 	start := make(chan struct{})
 	var wg sync.WaitGroup
 	for _, j := range jobs {
@@ -210,7 +266,21 @@ func c16Concurrent(env *fw.Env, idx int) fw.Result {
 			defer wg.Done()
 			<-start
 			for k := 0; k < 3; k++ {
-				j.out = doPack(j.dir, j.opts)
+				if shared == nil {
+					j.out = doPack(j.dir, j.opts)
+					continue
+				}
+				var o packObs
+				var buf bytes.Buffer
+				panicked, pv := fw.Try(func() { o.Meta, o.Err = shared.Pack(j.dir, &buf) })
+				if panicked {
+					o.Panic = pv
+				}
+				o.Data = buf.Bytes()
+				if o.Err == nil && o.Panic == "" {
+					o.Entries, o.DecErr = mon.DecodeSlug(o.Data)
+				}
+				j.out = o
 			}
 		}()
 	}
@@ -248,8 +318,8 @@ func c16Concurrent(env *fw.Env, idx int) fw.Result {
 func init() {
 	variations := &fw.Phase{
 		Name: "spelling-cwd-symlink-history-variations", Chroot: true,
-		N:    fw.Fixed(300, 4000),
-		Run:  c16Run,
+		N:   fw.Fixed(300, 4000),
+		Run: c16Run,
 	}
 	conc := &fw.Phase{
 		Name: "concurrent-pack-under-race-detector", Chroot: true, Race: true, Solo: true, Shards: 8,
@@ -261,8 +331,8 @@ func init() {
 	fw.Register(&fw.Property{
 		ID:    "C16",
 		Level: "exploration",
-		Rule: "for each generated tree (with one of 7 rule files) and option set, Pack runs once by the absolute clean path (baseline) and then under 16 variations: 8 spellings/working directories (trailing slash, doubled slash, dot segments, relative from parent / inside / elsewhere / sibling), 5 ways through a symlink (absolute target, relative target with the working directory elsewhere and at the link, chain of two, trailing slash) and 3 call histories (another tree, a rule file beginning with a negation, 50 mixed calls); decoded entry lists must be identical. " +
-			"Concurrency: fresh race-instrumented worker per round, 8-16 goroutines packing different trees (default rules / negation-first rule files mixed) 3 times each behind a barrier, outputs compared with solo runs; any race report is a violation. non-trivial = every case (each has >=1 non-baseline variation); distinct = tree x rules x options",
+		Rule: "for each generated tree (with one of 7 rule files) and option set, Pack runs once by the absolute clean path (baseline) and then under 18 variations: 8 spellings/working directories (trailing slash, doubled slash, dot segments, relative from parent / inside / elsewhere / sibling), 5 ways through a symlink (absolute target, relative target with the working directory elsewhere and at the link, chain of two, trailing slash) and 5 call histories (another tree, a rule file beginning with a negation, the same relative spelling / '.' used earlier from another working directory for a different tree whose rule file has the same size and mtime, 50 mixed calls); decoded entry lists must be identical. " +
+			"Concurrency: fresh race-instrumented worker per round, 8-16 goroutines packing different trees (default rules / negation-first rule files mixed) 3 times each behind a barrier (every other round through one shared Packer value), outputs compared with solo runs; any race report is a violation. non-trivial = every case (each has >=1 non-baseline variation); distinct = tree x rules x options",
 		Assumptions: []string{"the baseline run is Pack of the absolute clean path in the same process", "the race detector only sees the interleavings the scheduler produced in these rounds"},
 		Phases:      []*fw.Phase{variations, conc},
 	})
